@@ -281,10 +281,25 @@ def eval_cases(pid, prop, cases, wdir):
 
 # ---------------------------------------------------------------- known findings
 def load_known(pid):
-    p = os.path.join(ROOT, "known_findings.json")
+    """known_findings/Cxx.json holds the entries of one property (committed, never written by a check).
+    known_findings.json is the consolidated copy written by `./check --manifest`."""
+    p = os.path.join(ROOT, "known_findings", pid + ".json")
     if not os.path.exists(p):
         return []
     return [e for e in json.load(open(p)) if e.get("property") == pid]
+
+
+def coqchk(pid, timeout=2700):
+    """Independent re-check of the property's compiled closure (thorough tier only)."""
+    rc, o, dt = sh(["timeout", str(timeout), "coqchk", "-silent", "-o", "-R", ".", "Refinery",
+                    "Refinery.Props.%s" % pid], cwd=COQ, timeout=timeout + 30)
+    axioms = []
+    m = re.search(r"Axioms:(.*?)(?:\n\s*\n|\Z)", o, re.S)
+    if "* Axioms: <none>" in o:
+        axioms = []
+    elif m:
+        axioms = [l.strip() for l in m.group(1).splitlines() if l.strip()]
+    return rc == 0, axioms, dt, o[-1500:]
 
 
 # ---------------------------------------------------------------- main check
@@ -382,6 +397,14 @@ def check_property(pid, tier, seed, n_override=None, replay=None):
             if errs:
                 detail += " | first failing file %s line %s: %s" % (errs[0][0], errs[0][1], errs[0][2].strip()[:300])
         broken.append(("proof", detail))
+    chk = None
+    if tier == "thorough" and pok and not replay and prop.get("coqchk", True):
+        with Lock("build"):
+            cok, cax, cdt, cout = coqchk(pid)
+        timings["coqchk_s"] = round(cdt, 1)
+        chk = {"ok": cok, "axioms": cax, "wall_s": round(cdt, 1)}
+        if not cok:
+            broken.append(("coqchk", cout))
     mon_ok = os.path.exists(os.path.join(COQ, "Monitor", pid + ".vo"))
     if not mon_ok:
         broken.append(("monitor", "Monitor/%s.v does not compile: %s" % (pid, make_out[-1500:])))
@@ -529,6 +552,7 @@ def check_property(pid, tier, seed, n_override=None, replay=None):
             "timings": timings,
             "known_findings_reproduced": [known_codes[c].get("id") for c in sorted(known_hits)],
             "partial": prop.get("partial", False),
+            "coqchk": chk,
         },
         "assumptions": prop.get("assumptions", []) + notes,
         "wall_s": round(time.time() - t_start, 1),
@@ -616,6 +640,10 @@ def manifest():
         "not_applicable": na,
     }
     write_json(mp, man)
+    allk = []
+    for f in sorted(glob.glob(os.path.join(ROOT, "known_findings", "C*.json"))):
+        allk += json.load(open(f))
+    write_json(os.path.join(ROOT, "known_findings.json"), allk)
     return 0
 
 
